@@ -33,11 +33,11 @@ func isNilResult(v AV) (bool, bool) {
 }
 
 type postExpect struct {
-	when func(entry, label string) bool
-	desc string
-	ok   func(res []AV) (bool, bool) // (holds, decided)
-	whenHyp func(entry string, h *GeomHyp) bool // alternative selector on the geometry hypothesis
-	allowDerived bool // judge paths that branch on computed floats too (the expectation is about shape, not about values)
+	when         func(entry, label string) bool
+	desc         string
+	ok           func(res []AV) (bool, bool)         // (holds, decided)
+	whenHyp      func(entry string, h *GeomHyp) bool // alternative selector on the geometry hypothesis
+	allowDerived bool                                // judge paths that branch on computed floats too (the expectation is about shape, not about values)
 }
 
 func rulePost(name string, exps []postExpect) func(c *Ctx, run *shapeRun, hyps []*GeomHyp, labels []string) {
@@ -137,7 +137,9 @@ var quadtreePost = []postExpect{
 		return strings.Contains(l, "tree=never-populated") && (strings.HasSuffix(e, ".Find") || strings.HasSuffix(e, ".Matching") ||
 			strings.Contains(e, ".KNearest") || strings.Contains(e, ".InBound"))
 	}, "a query on a tree that never had a point returns nil", resultNil(0)),
-	pe(func(e, l string) bool { return strings.Contains(l, "tree=never-populated") && strings.HasSuffix(e, ".Remove") },
+	pe(func(e, l string) bool {
+		return strings.Contains(l, "tree=never-populated") && strings.HasSuffix(e, ".Remove")
+	},
 		"Remove on a tree that never had a point reports false", resultBool(0, false)),
 	pe(func(e, l string) bool { return strings.Contains(l, "k=0") && strings.Contains(e, ".KNearest") },
 		"k-nearest with k = 0 returns no pointers", sliceLenAtMost(0)),
@@ -169,7 +171,7 @@ func typedNilPost(entrySuffixes ...string) []postExpect {
 			return false
 		},
 		allowDerived: true,
-		desc: "the result is a nil interface or holds a non-nil value (never a typed nil inside a non-nil interface)",
+		desc:         "the result is a nil interface or holds a non-nil value (never a typed nil inside a non-nil interface)",
 		ok: func(res []AV) (bool, bool) {
 			if len(res) == 0 {
 				return false, false
